@@ -206,7 +206,12 @@ Definition add_edit (kind : add_kind) (target : ppart) (obj : option rv) (pv : j
           match kind with
           | AddStd =>
               let is_dash := match target with PStr s => ustr_eqb s [ch_minus] | PInt _ => false end in
-              let is_len := match target with PInt z => Z.eqb z (Z.of_nat (length xs)) | PStr _ => false end in
+              (* str(target) == str(len(parent)): an index kept as a string token (a pointer built
+                 from parts) appends like the int when it spells len(parent) canonically *)
+              let is_len := match target with
+                            | PInt z => Z.eqb z (Z.of_nat (length xs))
+                            | PStr s => ustr_eqb s (str_of_Z (Z.of_nat (length xs)))
+                            end in
               if is_dash || is_len then Ok EAppend else Err (EPatch KPatch)
           | _ => Ok EAppend
           end
